@@ -335,6 +335,38 @@ def precompileCreateTask : Prog :=
 def precompileReward : Prog :=
   [.check "CheckExocoreGatewayAddr", .check "GetRewardParamsFromInputs", .check "RewardForWithdraw"]
 
+/-- x/oracle/keeper/msg_server_create_price.go: CreatePrice → aggregator/context.go: NewCreatePrice
+    (checkMsg, then FillPrice → worker.go: do → filter.go: filtrate). The state here is the module
+    stores TOGETHER WITH the oracle's process memory (aggregator context `agc`, cache `cs`): no cache
+    context covers the latter, so the handler's own order is all there is — every refusing check has
+    to precede the first mutation of `agc`. The steps named `mem:…` are those mutations.
+    Two things FillPrice does before its last refusal are not steps of this program, because they
+    are no change of the compared state: (1) `aggregators[feederID] = newWorker(…)` when the feeder
+    has no worker yet — a fresh worker is never sealed and its empty filter lets every message that
+    passed checkMsg through, so a refusal after it ("sealed", "ignored") is only possible when the
+    worker already existed and the statement did nothing; (2) the nonce `filtrate` records in the
+    filter before it looks at the det ids — the nonce bookkeeping the property exempts ("apart from
+    … sequence/nonce changes": an admitted submission that is then ignored has consumed its nonce);
+    the harness removes the filter's nonce sets from the dump it compares. -/
+def oracleCreatePrice : Prog :=
+  [.check "checkTimestamp",
+   -- context.go: checkMsg
+   .check "sanityCheck", .check "round open", .check "basedBlock", .check "CheckRules", .check "CheckDecimal",
+   -- context.go: FillPrice / worker.go: do / filter.go: filtrate
+   .check "worker.sealed", .check "filtrate",
+   .write "mem:aggregator.fillPrice", .write "mem:calculator.fillPrice", .write "mem:aggregator.confirmDSPrice",
+   .write "mem:round.status=closed+worker.seal",
+   -- back in the msg server
+   .write "AppendPriceTR|GrowRoundID", .write "RemoveNonceWithFeederIDForValidators", .write "cs.RemoveCache|cs.AddCache"]
+
+/-- x/oracle/keeper/msg_server_update_params.go: UpdateParams. Every step up to Validate works on
+    `p`, a value decoded from the store by `ms.GetParams(ctx)` that shares nothing with the process
+    memory (tie `C09_tie_updateParams_base`); UpdateTokens cannot fail and is not listed. The writes:
+    the store (dropped with the message's cache on error) and the in-memory params cache. -/
+def oracleUpdateParams : Prog :=
+  [.check "authority", .check "AddSources", .check "AddChains", .check "UpdateMaxPriceCount",
+   .check "UpdateTokenFeeder", .check "Validate", .write "SetParams", .write "cs.AddCache(ItemP)"]
+
 /-- the registry used by `C09_full` and by the correspondence driver -/
 def entryPoints : List (String × Prog) :=
   [("assets.depositLST", assetsDepositWithdrawLST), ("assets.withdrawLST", assetsDepositWithdrawLST),
@@ -351,7 +383,8 @@ def entryPoints : List (String × Prog) :=
    ("operator.Slash", slash), ("delegation.EndBlock.record", endBlockRecord),
    ("operator.UpdateVotingPower", updateVotingPower),
    ("operator.UpdateVotingPower.noAssets", updateVotingPowerNoAssets),
-   ("oracle.UpdateNSTByBalanceChange", updateNSTByBalanceChange2)]
+   ("oracle.UpdateNSTByBalanceChange", updateNSTByBalanceChange2),
+   ("oracle.CreatePrice", oracleCreatePrice), ("oracle.UpdateParams", oracleUpdateParams)]
 
 def lookup (name : String) : Option Prog := (entryPoints.find? (·.1 = name)).map (·.2)
 
